@@ -144,10 +144,19 @@ def tryEv (s : St) (e : UEv) : Option (Act × St) :=
   | some a => (step s a).map fun s' => (a, s')
   | none => none
 
+/-- does the waiting report `p` really hold back `e`?  An enqueue into association `k` that cannot happen in the current state
+(its queue is full) does not hold back the closure of `k`: in the real execution the loop's send was released by that very
+closure (the datagram is dropped), and the loop reports it afterwards — possibly before the closer reports. -/
+def holds (s : St) (p e : UEv) : Bool :=
+  blocks p e &&
+  (match e, p with
+   | .close k, .enq k' => !(k == k' && (tryEv s p).isNone)
+   | _, _ => true)
+
 def firstReady (s : St) : List UEv → List UEv → Option (Act × St × List UEv)
   | _, [] => none
   | seen, e :: rest =>
-    if seen.any (fun p => blocks p e) then firstReady s (seen ++ [e]) rest
+    if seen.any (fun p => holds s p e) then firstReady s (seen ++ [e]) rest
     else match tryEv s e with
       | some (a, s') => some (a, s', seen ++ rest)
       | none => firstReady s (seen ++ [e]) rest
